@@ -196,6 +196,9 @@ struct Agg {
     violations: Vec<(u64, Violation, serde_json::Value)>,
     harness_errors: Vec<String>,
     samples: Vec<serde_json::Value>,
+    /// violations seen on pooled threads that did not reproduce in the clean room
+    tainted: u64,
+    tainted_examples: Vec<String>,
 }
 
 impl Agg {
@@ -259,6 +262,12 @@ impl Agg {
 
     fn merge(&mut self, o: Agg) {
         self.evaluations += o.evaluations;
+        self.tainted += o.tainted;
+        for e in o.tainted_examples {
+            if self.tainted_examples.len() < 3 {
+                self.tainted_examples.push(e);
+            }
+        }
         for x in o.nontrivial {
             if self.nontrivial.len() >= DISTINCT_CAP_TOTAL {
                 break;
@@ -337,6 +346,14 @@ pub fn run_batch<E: Engine>(args: &BatchArgs) -> i32 {
     run_batch_ev::<E>(args).0
 }
 
+/// Execute a case in the clean room: on a brand-new OS thread, every simulated task on a brand-new
+/// OS thread. The exploration batch pools threads for speed; a pooled thread carries whatever
+/// thread-local state the code under test left behind in earlier runs, so what the batch sees is
+/// only a candidate until it has been reproduced here. Minimisation and replay run here as well.
+pub fn execute_clean<E: Engine>(case: &E::Case, want_trace: bool) -> Outcome {
+    cadence_dsim::kernel::in_clean_room(|| E::execute(case, want_trace))
+}
+
 /// Like `run_batch`, also returning the evidence document (written to disk only if asked).
 pub fn run_batch_ev<E: Engine>(args: &BatchArgs) -> (i32, serde_json::Value) {
     let t0 = Instant::now();
@@ -361,11 +378,32 @@ pub fn run_batch_ev<E: Engine>(args: &BatchArgs) -> (i32, serde_json::Value) {
                         break;
                     }
                     let case = gen_case::<E>(args.seed, &args.prop, args.tier, idx);
+                    let confirm = |c: &E::Case, mut o: Outcome, agg: &mut Agg| -> Outcome {
+                        // a violation seen on pooled threads is a candidate: confirm it in the clean room
+                        if o.violations.iter().any(|v| v.concerns(&args.prop)) {
+                            let oc = execute_clean::<E>(c, false);
+                            if oc.violations.iter().any(|v| v.concerns(&args.prop)) {
+                                o.violations = oc.violations;
+                                o.schedule = oc.schedule;
+                                o.schedule_hash = oc.schedule_hash;
+                                o.trace_hash = oc.trace_hash;
+                            } else {
+                                agg.tainted += 1;
+                                if agg.tainted_examples.len() < 3 {
+                                    agg.tainted_examples.push(format!("run {idx}: {}", o.violations.iter().map(|v| v.clause.as_str()).collect::<Vec<_>>().join(",")));
+                                }
+                                o.violations.clear();
+                            }
+                        }
+                        o
+                    };
                     let o = E::execute(&case, false);
+                    let o = confirm(&case, o, &mut agg);
                     agg.absorb::<E>(&case, &o, idx, &args.prop, false);
                     if args.sweep_every > 0 && idx % args.sweep_every == 0 && o.violations.is_empty() {
                         for v in E::sweep(&case, &o) {
                             let so = E::execute(&v, false);
+                            let so = confirm(&v, so, &mut agg);
                             agg.absorb::<E>(&v, &so, idx, &args.prop, true);
                         }
                     }
@@ -390,6 +428,13 @@ pub fn run_batch_ev<E: Engine>(args: &BatchArgs) -> (i32, serde_json::Value) {
         if agg.probes.get(p).copied().unwrap_or(0) == 0 && agg.violations.is_empty() && !truncated {
             harness_errors.push(format!("probe '{p}' stuck at zero: the workload never reached the condition this property is about"));
         }
+    }
+
+    if agg.tainted > 0 && agg.violations.is_empty() {
+        harness_errors.push(format!(
+            "{} run(s) of the batch showed a violation that did not reproduce in isolation (brand-new threads, same case and schedule), e.g. {:?}: state is leaking between runs - the code under test keeps thread-local or process-wide state. No isolated reproduction was found, so nothing is reported as a violation",
+            agg.tainted, agg.tainted_examples
+        ));
     }
 
     // group violations by clause; keep the smallest case per clause
@@ -497,6 +542,11 @@ pub fn run_batch_ev<E: Engine>(args: &BatchArgs) -> (i32, serde_json::Value) {
                 "known_findings_seen": known_lines.iter().cloned().collect::<Vec<_>>(),
                 "replays": reported.iter().map(|(f, _)| f.clone()).collect::<Vec<_>>(),
                 "harness_errors": harness_errors,
+                "isolation": {
+                    "exploration": "pooled OS threads (one per simulated task, reused across runs)",
+                    "confirmation_minimisation_replay": "clean room: brand-new OS thread per simulated task, so thread-local state of the code under test cannot leak in from earlier runs",
+                    "candidates_not_reproduced_in_isolation": agg.tainted,
+                },
             },
             "assumptions": [
                 args.level_note,
@@ -544,7 +594,7 @@ pub fn write_evidence_file(prop: &str, ev: &serde_json::Value) -> Result<(), Str
 pub fn minimise<E: Engine>(case: &E::Case, prop: &str, clause: &str, budget: u64) -> (E::Case, Outcome, Violation, u64) {
     let mut execs = 0u64;
     let mut best = case.clone();
-    let mut best_out = E::execute(&best, false);
+    let mut best_out = execute_clean::<E>(&best, false);
     execs += 1;
     let find = |o: &Outcome| o.violations.iter().find(|v| v.clause == clause && v.concerns(prop)).cloned();
     let mut best_v = match find(&best_out) {
@@ -564,7 +614,7 @@ pub fn minimise<E: Engine>(case: &E::Case, prop: &str, clause: &str, budget: u64
             if execs >= budget {
                 break 'outer;
             }
-            let o = E::execute(&cand, false);
+            let o = execute_clean::<E>(&cand, false);
             execs += 1;
             if o.harness_error.is_some() {
                 continue;
@@ -579,7 +629,7 @@ pub fn minimise<E: Engine>(case: &E::Case, prop: &str, clause: &str, budget: u64
         break;
     }
     // final run with a textual trace, and make sure it is stable
-    let o = E::execute(&best, true);
+    let o = execute_clean::<E>(&best, true);
     execs += 1;
     if let Some(v) = find(&o) {
         best_v = v;
@@ -638,7 +688,7 @@ pub fn replay<E: Engine>(rf: &ReplayFile, quiet: bool) -> i32 {
             return 2;
         }
     };
-    let o = E::execute(&case, true);
+    let o = execute_clean::<E>(&case, true);
     if let Some(e) = &o.harness_error {
         eprintln!("HARNESS-ERROR: {e}");
         return 2;
@@ -665,7 +715,7 @@ pub fn replay<E: Engine>(rf: &ReplayFile, quiet: bool) -> i32 {
 /// Determinism self-test: every seed is executed twice (on different worker threads) and the
 /// trace hashes, violation lists and schedules must agree.
 pub fn selftest<E: Engine>(focus: &str, seeds: u64, jobs: usize, base_seed: u64) -> Result<u64, String> {
-    let run = |jobs: usize| -> Vec<(u64, u64, usize)> {
+    let run = |jobs: usize, clean: bool| -> Vec<(u64, u64, usize)> {
         let next = AtomicU64::new(0);
         let out = Mutex::new(vec![(0u64, 0u64, 0usize); seeds as usize]);
         std::thread::scope(|s| {
@@ -676,18 +726,23 @@ pub fn selftest<E: Engine>(focus: &str, seeds: u64, jobs: usize, base_seed: u64)
                         break;
                     }
                     let case = gen_case::<E>(base_seed, focus, Tier::Quick, idx);
-                    let o = E::execute(&case, false);
+                    let o = if clean { execute_clean::<E>(&case, false) } else { E::execute(&case, false) };
                     out.lock().unwrap()[idx as usize] = (o.trace_hash, o.schedule_hash, o.violations.len());
                 });
             }
         });
         out.into_inner().unwrap()
     };
-    let a = run(1.max(jobs / 4));
-    let b = run(jobs);
+    let a = run(1.max(jobs / 4), false);
+    let b = run(jobs, false);
+    // third execution in the clean room (brand-new OS threads): pooling must not change anything
+    let c = run(jobs, true);
     for i in 0..seeds as usize {
         if a[i] != b[i] {
             return Err(format!("engine {} focus {focus} run {i}: {:?} vs {:?}", E::NAME, a[i], b[i]));
+        }
+        if a[i] != c[i] {
+            return Err(format!("engine {} focus {focus} run {i}: pooled {:?} vs clean room {:?}", E::NAME, a[i], c[i]));
         }
     }
     Ok(seeds)
